@@ -35,6 +35,11 @@ pub struct Case {
     /// 0 = the collection maps the pool onto itself (a fixed point)
     #[serde(default)]
     pub first_relation: Option<u64>,
+    /// if set (and the two above are not): the pool is preset such that it holds exactly the given
+    /// value (0, all ones, a single bit, ...) at the given intermediate stage of the first
+    /// collection (after a fold, after a rotation, before / after the stir)
+    #[serde(default)]
+    pub first_stage: Option<(usize, u64)>,
 }
 
 pub const BUDGET: usize = 8_000_000;
@@ -74,6 +79,16 @@ pub fn check(c: &Case) -> CheckResult {
                 m.pool = p0;
                 targeted = true;
                 relation_targeted = true;
+            }
+        }
+    }
+    let mut stage_targeted = false;
+    if let (None, None, Some((stage, want))) = (c.first_result, c.first_relation, c.first_stage) {
+        if let Some(p0) = crate::refmodel::jitter::pool_for_stage(&m.script, 0, m.rounds, stage, want, BUDGET) {
+            if g.jitter().unwrap().set_pool(p0) {
+                m.pool = p0;
+                targeted = true;
+                stage_targeted = true;
             }
         }
     }
@@ -164,6 +179,7 @@ pub fn check(c: &Case) -> CheckResult {
     Ok(CaseInfo::new(!c.ops.is_empty() && (m.stuck_seen > 0 || stats_between_u32 || rounds_not_64 || targeted))
         .class_if(targeted, "first-result-targeted")
         .class_if(relation_targeted, "first-result-related-to-start-pool")
+        .class_if(stage_targeted, "intermediate-pool-value-targeted")
         .class_if(c.first_relation.is_some() && c.first_result.is_none() && !relation_targeted, "relation-unsolvable")
         .class_if(m.stuck_seen > 0, "stuck-measurement-repeated")
         .class_if(stats_between_u32, "timer_stats-between-u32")
@@ -194,15 +210,19 @@ pub fn structured_value() -> BoxedStrategy<u64> {
 pub fn strategy(max_ops: usize) -> BoxedStrategy<Case> {
     let ops = proptest::collection::vec(prop_oneof![30 => jop(40), 1 => Just(JOp::TestTimer), 2 => Just(JOp::Clone)], 0..=max_ops);
     let relation = prop_oneof![4 => Just(0u64), 1 => Just(u64::MAX), 1 => (0u32..64).prop_map(|k| 1u64 << k)];
-    (gens::timer_prog(true, 14), proptest::option::weighted(0.85, gens::jitter_rounds()), ops, proptest::option::weighted(0.25, structured_value()), proptest::option::weighted(0.1, relation))
-        .prop_map(|(prog, rounds0, mut ops, first_result, first_relation)| {
+    // intermediate stage: the last ones (before / after the stir, the last rotation and fold) and
+    // the first ones most often, any other sometimes; value 0 most often
+    let stage = (prop_oneof![4 => (0usize..4).prop_map(|k| usize::MAX - k), 2 => 0usize..4, 2 => 0usize..2000], prop_oneof![5 => Just(0u64), 2 => Just(u64::MAX), 2 => structured_value()]);
+    (gens::timer_prog(true, 14), proptest::option::weighted(0.85, gens::jitter_rounds()), ops, proptest::option::weighted(0.25, structured_value()), proptest::option::weighted(0.1, relation), proptest::option::weighted(0.2, stage))
+        .prop_map(|(prog, rounds0, mut ops, first_result, first_relation, first_stage)| {
             let first_relation = if first_result.is_some() { None } else { first_relation };
-            if first_result.is_some() || first_relation.is_some() {
+            let first_stage = if first_result.is_some() || first_relation.is_some() { None } else { first_stage };
+            if first_result.is_some() || first_relation.is_some() || first_stage.is_some() {
                 // the targeted collection is the first operation: start with output calls
                 ops.insert(0, JOp::U32);
                 ops.insert(1, JOp::U32);
             }
-            Case { prog, rounds0, ops, first_result, first_relation }
+            Case { prog, rounds0, ops, first_result, first_relation, first_stage }
         })
         .boxed()
 }
@@ -275,6 +295,7 @@ pub fn def(ctx: &Ctx) -> PropDef {
                     ops: vec![JOp::U64, JOp::U32, JOp::U64],
                     first_result: None,
                     first_relation: None,
+                    first_stage: None,
                 })
                 .boxed()
         },
